@@ -7,7 +7,7 @@ namespace LexVerif.Proof.Sep
 open LexVerif LexVerif.Model LexVerif.Spec
 open LexVerif.Props.C12
 
-theorem parseNumber_same (c c' : Cfg) (hS : SepClass c) (hP : PlainClass c') (hC : Counterpart c c')
+theorem parseNumber_same (c c' : Cfg) (hS : RelClass c) (hP : PlainClass c') (hC : Counterpart c c')
     (isPartial : Bool) (o : POpts) (b : Bytes) (neg fv : Bool) (hn : NoSep c b.slc) :
     parseNumber c isPartial o b neg fv = parseNumber c' isPartial o b neg fv := by
   apply RelE.eq
@@ -27,8 +27,7 @@ theorem parseNumber_same (c c' : Cfg) (hS : SepClass c) (hP : PlainClass c') (hC
     by_cases h0 : ip.nDigits + fp.nAfterDot = 0
     · simp [h0]
     · have : Bytes.currentCount c fp.byte ≠ 0 := by
-        simp only [Bytes.currentCount, hS.bytes, Bool.false_eq_true, if_false]
-        unfold CountLB at g7; omega
+        unfold CountLBc at g7; omega
       simp [h0, this]
   have hcnt' : (decide (ip.nDigits + fp.nAfterDot = 0) ||
       c.feats.format && decide (Bytes.currentCount c' fp'.byte = 0)) = decide (ip.nDigits + fp.nAfterDot = 0) := by
@@ -61,9 +60,11 @@ theorem parseNumber_same (c c' : Cfg) (hS : SepClass c) (hP : PlainClass c') (hC
         rw [h10]; exact (hn.drop _).take _
       have hfd : ∀ fd, fp.fraction = some fd → NoSep c fd := by
         intro fd hfd x hx; exact hn x (g9 fd hfd x hx)
-      rw [manyDigits_sep c hS b.slc hn o neg ip fp ep _ _ _ _ h3 hids hfd,
-        manyDigits_plain c' hP b.slc o neg ip' fp' ep' _ _ _ _ (by rw [h2]; exact h3),
-        manyClosed_mode _ _ _ _ _ _ _ _ _ _ _ _ _ _ _ h10 hlen (by intro hfr; rw [g10 hfr]; rfl),
-        h2, h7, h6, g5, g2, k2, hC.mantissaRadix, funext (scaleVal_same c c' hC)]
+      rw [manyDigits_rel c hS b.slc hn o neg ip fp ep _ _ _ _ h3 hids hfd,
+        manyDigits_plain c' hP b.slc o neg ip' fp' ep' _ _ _ _ (by rw [h2]; exact h3)]
+      cases (c.feats.format && !c.bytesContiguous)
+      · rw [h2, h7, h6, g5, g2, k2, hC.mantissaRadix, funext (scaleVal_same c c' hC)]
+      · rw [manyClosed_mode _ _ _ _ _ _ _ _ _ _ _ _ _ _ _ h10 hlen (by intro hfr; rw [g10 hfr]; rfl),
+          h2, h7, h6, g5, g2, k2, hC.mantissaRadix, funext (scaleVal_same c c' hC)]
 
 end LexVerif.Proof.Sep
